@@ -369,6 +369,19 @@ func TestC10(t *testing.T) {
 				gen.NonTrivial("trunc", n)
 			}
 		}
+		// the QE auth-data size swallowing the chain structure down to its last r bytes (all outer sizes stay consistent)
+		authOff := 636 + 134 + 448
+		after := len(b) - (authOff + 2) // bytes behind the auth-size field
+		for r := 0; r <= 16; r++ {
+			i++
+			if after-r > 0xffff || !gen.ShardOwns(i) {
+				continue
+			}
+			m := append([]byte{}, b...)
+			putLE(m, authOff, 2, uint64(after-r))
+			rawEntryPoints(t, base, m, map[string]any{"kind": "crash-raw", "raw_hex": hex.EncodeToString(m)})
+			gen.NonTrivial("auth-swallows-chain", r)
+		}
 		for _, f := range gen.SizeFields(len(base.Q.Auth)) {
 			for _, v := range boundaryVals(fixedPart(f.Name), getLE(b, f.Off, f.Len)) {
 				i++
